@@ -27,6 +27,8 @@ pub fn program(name: &str) -> &'static [u8] {
         "P8" => cat(&[ins(0x79, 0, 1, 0x50, 0), ins(0x79, 2, 1, 0x40, 0), ins(0x1f, 0, 2, 0, 0), ins(0x95, 0, 0, 0, 0)]),
         "P9" => cat(&[ins(0x79, 0, 1, 0x40, 0), ins(0x95, 0, 0, 0, 0)]),
         "PX" => cat(&[[0xff; 8]]),
+        // a local call far outside the program: refused by every verifier used here
+        "PY" => cat(&[ins(0x85, 0, 1, 0, 1000), ins(0x95, 0, 0, 0, 0)]),
         _ => panic!("program {name}"),
     }
 }
@@ -40,11 +42,15 @@ fn reject_all(_p: &[u8]) -> Result<(), std::io::Error> {
 fn custom(p: &[u8]) -> Result<(), std::io::Error> {
     if !p.is_empty() && p[0] == 0xb7 { Ok(()) } else { Err(std::io::Error::other("custom verifier: first instruction must be mov64 imm")) }
 }
-fn calc64(_p: &[u8], _pc: usize, _d: &mut dyn std::any::Any) -> u16 {
+// (both calculators look at the instruction they are asked about, as a real one would: they are
+// only ever asked about function entries of a program the verifier has accepted)
+fn calc64(p: &[u8], pc: usize, _d: &mut dyn std::any::Any) -> u16 {
+    let _entry = &p[8 * pc..8 * pc + 8];
     64
 }
 /// looks at the program: 64 if it starts with mov64 r1, r10 (P5), else 32
-fn calc_byprog(p: &[u8], _pc: usize, _d: &mut dyn std::any::Any) -> u16 {
+fn calc_byprog(p: &[u8], pc: usize, _d: &mut dyn std::any::Any) -> u16 {
+    let _entry = &p[8 * pc..8 * pc + 8];
     if p.first() == Some(&0xbf) { 64 } else { 32 }
 }
 
@@ -168,7 +174,7 @@ pub fn run_history(job: &Value) -> Value {
     let mut r = Rng::new(seed);
     exec::set_helper_id(0, 1);
     exec::set_helper_id(1, 3);
-    let mut progs: Vec<&str> = vec!["P1", "P2", "P3", "P4", "P5", "P6", "PX"];
+    let mut progs: Vec<&str> = vec!["P1", "P2", "P3", "P4", "P5", "P6", "PX", "PY"];
     if kind != "nodata" {
         progs.push("P7");
     }
@@ -194,7 +200,7 @@ pub fn run_history(job: &Value) -> Value {
         let (op, arg): (&str, Value);
         if choice < 25 {
             let mut p = *r.pick(&progs);
-            if under_accept_all && p == "PX" {
+            if under_accept_all && (p == "PX" || p == "PY") {
                 p = "P1"; // never load the unsafe program under accept-all
             }
             let lay = *r.pick(&layouts);
@@ -233,7 +239,7 @@ pub fn run_history(job: &Value) -> Value {
             match op {
                 "set_program" => {
                     let p = arg[0].as_str().unwrap();
-                    loaded_px = p == "PX";
+                    loaded_px = p == "PX" || p == "PY";
                     cur = progs.iter().copied().find(|x| *x == p);
                 }
                 "set_verifier" => under_accept_all = arg == "acceptAll",
